@@ -45,6 +45,7 @@ impl Prop for C12Prop {
             lifecycle_pct: 30,
             keyings: 2,
             boundary_per_mille: 25,
+            huge_one_in: 2000,
         }
         .gen("C12", seed, idx);
         // the node set the history produces (the model is exact for these permissive specs)
@@ -192,7 +193,7 @@ impl Prop for C12Prop {
         }
     }
     fn rule(&self) -> String {
-        "graphs of every kind (n <= 20) with families of node sets: a random set partition, singletons, one set, a partition plus an empty set, and non-partitions built by mutation (a member duplicated into a second set, a member dropped, a foreign name added, a foreign name replacing a member, and the cancelling combination of one duplicate and one omission whose sizes still sum to n); is_partition vs the set-theoretic definition; modularity (weighted / unweighted, resolution in (0,3] and default) vs Newman's formula from the stored edge list at 1e-9 on true partitions, NotAPartition otherwise; 2 hash keyings (summation order). distinct_nontrivial = distinct (graph, families, resolution) with >= 1 edge and >= 2 nodes".into()
+        "graphs of every kind (n <= 20) with families of node sets: a random set partition, singletons, one set, a partition plus an empty set, and non-partitions built by mutation (a member duplicated into a second set, a member dropped, a foreign name added, a foreign name replacing a member, and the cancelling combination of one duplicate and one omission whose sizes still sum to n); is_partition vs the set-theoretic definition; modularity (weighted / unweighted, resolution in (0,3] and default) vs Newman's formula from the stored edge list at 1e-9 on true partitions, NotAPartition otherwise; 2 hash keyings (summation order). distinct_nontrivial = distinct (graph, families, resolution) with >= 1 edge and >= 2 nodes; one case in 2000 is a dense graph (1-3 blocks, 60-300 nodes) with 2 100 - 12 500 stored edges under a pool of 2-16 workers (strategy thresholds)".into()
     }
     fn assumptions(&self) -> Vec<String> {
         vec!["a family containing empty sets is a partition iff its non-empty sets are (the definition only speaks of disjointness, membership and cover)".into(), "weighted modularity only on graphs whose edges all carry weights".into()]
